@@ -117,7 +117,7 @@ class UGLA(Sampler):
 
         # Gaussian approximation of LMRF prior as function of x_k
         def Lk_fun(x_k):
-            dd =  1/np.sqrt((D @ x_k)**2 + self.beta*np.ones(n))
+            dd =  1/np.sqrt((D @ (x_k - self._priorloc))**2 + self.beta*np.ones(n))
             W = sp.sparse.diags(dd)
             return W.sqrt() @ D
 
@@ -138,7 +138,7 @@ class UGLA(Sampler):
 
         # Initial Laplace approx
         self._L2 = Lk_fun(self.x0)
-        self._L2mu = self._L2@self._priorloc
+        self._L2mu = np.sqrt(1/self.target.prior.scale)*(self._L2@self._priorloc)
         self._b_tild = np.hstack([self._L1@self._data, self._L2mu]) 
         
         #self.n = len(self.x0)
@@ -166,7 +166,7 @@ class UGLA(Sampler):
 
             # Update Laplace approximation
             self._L2 = Lk_fun(samples[:, s])
-            self._L2mu = self._L2@self._priorloc
+            self._L2mu = np.sqrt(1/self.target.prior.scale)*(self._L2@self._priorloc)
             self._b_tild = np.hstack([self._L1@self._data, self._L2mu]) 
         
             # Sample from approximate posterior
